@@ -108,6 +108,27 @@ def norm_row(name, row):
     return tuple(ckey(norm_cell(dt, v)) for (_, dt), v in zip(FIELDS[name], row))
 
 
+def enc_int(i):
+    """the cell coding shared with lean/Verif/C10/Mapper.lean: 0 None, 4n+1 int n>=0, 4n+2 int -n<0, 4k+3 other"""
+    return 4 * i + 1 if i >= 0 else 4 * (-i) + 2
+
+
+UNKNOWN_CELL = 4 * 10**9 + 3
+
+
+def cell_code(key, ids, add=False):
+    v = json.loads(key)
+    if v is None:
+        return 0
+    if "int" in v:
+        return enc_int(int(v["int"]))
+    if key not in ids:
+        if not add:
+            return UNKNOWN_CELL
+        ids[key] = len(ids)
+    return 4 * ids[key] + 3
+
+
 def sl_of(a):
     return slice(a[0], a[1], a[2])
 
@@ -177,12 +198,14 @@ class Spec:
         """naive re-statement of FieldMapper.map/cleanup + make_record for the scripted responses:
         list of (table, typed row) in the order the rows are added"""
         out = []
+        marks = []          # number of produced rows before item 0, 1, …
         parse_id = -1
         runs = {}
         last_run = -1
         script = st["script"]
         calls = []
         for pos, item in enumerate(self.cur["item"]):
+            marks.append(len(out))
             resp = script[pos % len(script)]
             i_id = int(json.loads(item[0])["int"])
             inp = json.loads(item[1])
@@ -191,12 +214,15 @@ class Spec:
             run = resp.get("run")
             d = {"i-id": {"int": str(i_id)}, "parse-id": {"int": str(parse_id)},
                  "run-id": run["run-id"] if run is not None and "run-id" in run else {"int": "-1"}}
-            d["readings"] = resp["readings"] if "readings" in resp else {"int": str(len(resp["results"]))}
+            if "readings" in resp:
+                d["readings"] = resp["readings"]
+            elif "results" in resp:
+                d["readings"] = {"int": str(len(resp["results"]))}
             for key in ("total", "error"):
                 if key in resp:
                     d[key] = resp[key]
             out.append(("parse", [d.get(f) for f, _ in FIELDS["parse"]]))
-            for res in resp["results"]:
+            for res in resp.get("results", []):
                 d = {"parse-id": {"int": str(parse_id)}}
                 for key in RESULT_KEYS:
                     if key in res:
@@ -220,6 +246,7 @@ class Spec:
                     if key in run:
                         d[key] = run[key]
                 out.append(("run", [d.get(f) for f, _ in FIELDS["run"]]))
+        self.marks = marks
         return out, calls
 
 
@@ -240,9 +267,17 @@ def simulate(case):
                 spec.cur[n] = list(spec.stored[n])
         elif k == "process":
             err = None
+            nit = len(spec.cur["item"])
+            if any("results" not in st["script"][pos % len(st["script"])] for pos in range(nit)):
+                # TestSuite.process reads response['results'] itself: such a response is not a valid
+                # processor response; the run is aborted with KeyError and what it leaves is not specified
+                info["aborted"] = True
+                err = "KeyError"
             prod, calls = spec.produced(st)
             info["produced"] = prod
             info["calls"] = calls
+            info["marks"] = spec.marks
+            info["before"] = {n: list(spec.cur[n]) for n in NAMES}
             for n in AFFECTED:
                 spec.cur[n] = []
             for n, row in prod:
@@ -273,9 +308,9 @@ class ScriptedCPU(interface.Processor):
         tmpl = self.script[self.n % len(self.script)]
         self.n += 1
         self.calls.append([j_val(datum), j_val((keys or {}).get("i-id"))])
-        resp = interface.Response(
-            NOTES=[], WARNINGS=[], ERRORS=[], input=datum, keys=dict(keys or {}),
-            results=[{k: py_val(v) for k, v in r.items()} for r in tmpl["results"]])
+        resp = interface.Response(NOTES=[], WARNINGS=[], ERRORS=[], input=datum, keys=dict(keys or {}))
+        if "results" in tmpl:
+            resp["results"] = [{k: py_val(v) for k, v in r.items()} for r in tmpl["results"]]
         for key in ("readings", "total", "error"):
             if key in tmpl:
                 resp[key] = py_val(tmpl[key])
@@ -386,10 +421,10 @@ class Gen:
         qs.append({"t": name, "q": "select", "cols": pick})
         return qs
 
-    def script(self):
+    def script(self, malformed=False):
         rng = self.rng
         out = []
-        run_ids = rng.choice([[0], [0], [1, 0], [2, 2, 5], []])
+        run_ids = rng.choice([[0], [0], [1, 0], [2, 2, 5], [], [-1, 3], [7, -1]])
         for j in range(rng.randrange(1, 4)):
             nres = rng.choice([0, 1, 1, 2, 3])
             t = {"results": []}
@@ -404,10 +439,14 @@ class Gen:
                 t["total"] = {"int": str(rng.randrange(0, 99))}
             if rng.random() < 0.3:
                 t["error"] = {"str": cps(rng.choice(["timeout", "x@y", "e\nf"] + [rng.choice(LINE_STRS)]))}
+            if malformed and nres == 0:
+                del t["results"]          # a response without a 'results' entry: process() itself needs it
             if run_ids:
                 rid = run_ids[j % len(run_ids)]
                 t["run"] = {"run-id": {"int": str(rid)}, "platform": {"str": cps("p%d" % j)},
                             "end": {"date": [2018, 6, 6, 12, 20, 49]}}
+                if rng.random() < 0.12:
+                    del t["run"]["run-id"]   # run id defaults to -1; a last run id of -1 writes no run rows
                 if rng.random() < 0.5:
                     t["run"]["run-comment"] = {"str": cps("c")}
             if rng.random() < 0.3:
@@ -571,13 +610,26 @@ def process_case(rng):
     """processing with every interesting buffer size, followed by commit (must add nothing)"""
     gen = Gen(rng)
     nitems = rng.choice([0, 1, 2, 3, 3, 4])
-    tables = {"item": {"init": gen.rows("item", nitems), "gz": nitems > 0 and rng.random() < 0.25}}
+    items = gen.rows("item", nitems)
+    pat = rng.choice(["unique", "unique", "same", "desc", "neg", "none", "gap"])
+    for j, row in enumerate(items):
+        if pat == "same":
+            row[0] = {"int": "5"}
+        elif pat == "desc":
+            row[0] = {"int": str(40 - 7 * j)}
+        elif pat == "neg":
+            row[0] = {"int": str(-3 + j)}
+        elif pat == "none" and j % 2 == 0:
+            row[0] = None
+        elif pat == "gap":
+            row[0] = {"int": str([100, 2, 50, 101][j % 4])}
+    tables = {"item": {"init": items, "gz": nitems > 0 and rng.random() < 0.25}}
     for n in ("parse", "result", "run", "note"):
         if rng.random() < 0.4:
             k = rng.choice([1, 2, 3])
             tables[n] = {"init": gen.rows(n, k), "gz": rng.random() < 0.3}
-    script = gen.script()
-    total = sum(2 + len(s["results"]) + len(s.get("chart", [])) for s in script) * max(1, nitems)
+    script = gen.script(malformed=rng.random() < 0.08)
+    total = sum(2 + len(s.get("results", [])) + len(s.get("chart", [])) for s in script) * max(1, nitems)
     b = rng.choice([0, 1, 2, 3, max(0, total - 1), total, total + 1, total + 2, 1000])
     steps = []
     if rng.random() < 0.4:
@@ -643,7 +695,7 @@ def negindex_cases():
 
 class C10(Check):
     pid = "C10"
-    quick_cases = 420
+    quick_cases = 340
     thorough_cases = 3000
     rule = ("one case = one history over a profile with six relations (item, note, parse, result, run, edge), "
             "0-6 initially stored rows per used relation, plain or gzip; rows carry a unique first cell and "
@@ -662,8 +714,13 @@ class C10(Check):
         "record codec (format/join/split/cast) is the identity on the generated typed values (C08); the oracle "
         "checks it on the real files",
         "a fresh TestSuite / not yet loaded table is modelled as a synchronized table",
-        "FieldMapper is not modelled in Lean: the model's process receives the produced rows from the "
-        "harness's naive re-statement of FieldMapper.map/cleanup (checked against the real code by the oracle)",
+        "FieldMapper.map/cleanup, make_record and the _add_row flush loop are modelled in Lean (Mapper.lean) "
+        "for a scripted parse processor; not modelled (generators stay away): responses with tokens, results "
+        "with flags, edges with daughters/alternates, a run without 'end' (datetime.now()), input rows keyed by "
+        "parse-id only (_i_id_map, transfer/generate tasks); integer cells use a fixed coding shared by harness "
+        "and model (0 None, 4n+1 / 4n+2 integers, 4k+3 interned other values)",
+        "during process the real tables are observed from the callback (once per item, before its rows are "
+        "added) and compared with the model's state after the same number of items",
         "after commit the compressed/plain form follows the code's rule (compressed stays compressed unless "
         "empty); the oracle only requires exactly one physical form, the form itself is compared with the model",
     ]
@@ -859,6 +916,7 @@ class C10(Check):
                     tsdb.write(d, name, rows, schema[name], gzip=bool(tab.get("gz")))
             ts = itsdb.TestSuite(d)
             out = [self.observe(ts, d, {"ot": list(NAMES), "qs": []}, None)]
+            out[0]["P"] = None
             for st in case["steps"]:
                 k = st["k"]
                 calls = None
@@ -871,7 +929,20 @@ class C10(Check):
                     res = {"ok": None}
                 elif k == "process":
                     cpu = ScriptedCPU(st["script"])
-                    res = guarded(lambda: ts.process(cpu, buffer_size=st["b"], gzip=st["gz"]))
+                    phases = []
+                    cur_ts = ts
+
+                    def callback(response, cur_ts=cur_ts, phases=phases):
+                        # called for every item after the processor and before its rows are added
+                        ph = {}
+                        for name in NAMES:
+                            t = cur_ts[name]
+                            with tsdb.open(d, name) as fh, warnings.catch_warnings():
+                                warnings.simplefilter("ignore")
+                                f = [trow(tsdb.split(line, cur_ts.schema[name])) for line in fh]
+                            ph[name] = {"it": [trow(r) for r in t], "f": f, "tx": bool(t._in_transaction)}
+                        phases.append(ph)
+                    res = guarded(lambda: ts.process(cpu, buffer_size=st["b"], gzip=st["gz"], callback=callback))
                     calls = cpu.calls
                 else:
                     t = ts[st["t"]]
@@ -891,8 +962,10 @@ class C10(Check):
                     else:
                         raise ValueError(k)
                 o = self.observe(ts, d, st, res.get("err"))
+                o["P"] = None
                 if calls is not None:
                     o["calls"] = calls
+                    o["P"] = phases
                 out.append(o)
             return out
         finally:
@@ -900,28 +973,37 @@ class C10(Check):
 
     # ---- model
     def interner(self, case):
-        """deterministic interning of every cell value the case can show: id per canonical cell key"""
+        """deterministic coding of every cell value the case can show (see `cell_code`)"""
         sim = self.sim(case)
-        ids = self._ids_for(case, sim)
+        ids = self._ids_for(case)
 
         def cid(key):
-            return ids.get(key, 0)
+            return cell_code(key, ids)
 
         def in_row(name, row):
-            """typed input row → ids (wrong-width rows keep their width)"""
+            """typed input row → cell codes (wrong-width rows keep their width)"""
             fs = FIELDS[name]
             return [cid(ckey(norm_cell(fs[j][1] if j < len(fs) else ":string", v))) for j, v in enumerate(row)]
         return sim, cid, in_row, ids
 
     def model_request(self, case):
         sim, cid, in_row, ids = self.interner(case)
+
+        def sval(v):
+            # a value of a scripted response: '' and None coincide; defaults of integer columns are the model's job
+            return cid(ckey(norm_cell(":string", v)))
+
+        def sdict(d):
+            return [[k, sval(v)] for k, v in d.items()]
         tables = []
         for n in NAMES:
             tab = case["tables"].get(n, {"init": [], "gz": False})
             tables.append({"width": WIDTH[n], "file": [in_row(n, r) for r in tab["init"]],
                            "gz": bool(tab.get("gz")) and len(tab["init"]) > 0})
+        schema = [{"name": n, "fields": [{"name": f, "int": dt == ":integer", "key": ":key" in fl}
+                                         for f, dt, fl in fs]} for n, fs in SCHEMA_SPEC]
         steps = []
-        for st, info in zip(case["steps"], sim):
+        for st in case["steps"]:
             k = st["k"]
             m = {"k": k, "ot": [TINDEX[n] for n in st.get("ot", [])]}
             if "t" in st:
@@ -947,8 +1029,10 @@ class C10(Check):
             if k == "process":
                 m["b"] = st["b"]
                 m["gz"] = st["gz"]
-                m["affected"] = [TINDEX[n] for n in AFFECTED]
-                m["produced"] = [[TINDEX[n], in_row(n, r)] for n, r in info["produced"]]
+                m["script"] = [{"top": sdict({key: t[key] for key in t if key not in ("results", "run", "chart")}),
+                                "results": [sdict(r) for r in t["results"]] if "results" in t else None,
+                                "run": sdict(t["run"]) if "run" in t else None,
+                                "chart": [sdict(e) for e in t.get("chart", [])]} for t in st["script"]]
             qs = []
             for q in st.get("qs", []):
                 mq = {"t": TINDEX[q["t"]], "q": q["q"]}
@@ -959,13 +1043,13 @@ class C10(Check):
                 qs.append(mq)
             m["qs"] = qs
             steps.append(m)
-        return {"tables": tables, "steps": steps, "ot": list(range(len(NAMES)))}
+        return {"tables": tables, "schema": schema, "steps": steps}
 
     def model_expected(self, case, impl_res):
         sim, cid, in_row, ids = self.interner(case)
 
         def row(r):
-            return [ids.get(ckey(v), 0) for v in r]
+            return [cid(ckey(v)) for v in r]
 
         def exc(x, f):
             return {"ok": f(x["ok"])} if "ok" in x else x
@@ -978,34 +1062,29 @@ class C10(Check):
                     T.append({"n": t["n"], "it": [row(r) for r in t["it"]],
                               "gi": [g if isinstance(g, dict) and "err" in g else {"ok": row(g)} for g in t["gi"]],
                               "tx": t["tx"], "f": [row(r) for r in t["f"]], "gz": t["gz"]})
+            P = None
+            if o.get("P") is not None:
+                P = [[{"it": [row(r) for r in ph[n]["it"]], "f": [row(r) for r in ph[n]["f"]], "tx": ph[n]["tx"]}
+                      for n in NAMES] for ph in o["P"]]
             out.append({"e": o["e"], "intx": o["intx"], "T": T,
-                        "Q": [exc(q, lambda rs: [row(r) for r in rs]) for q in o["Q"]]})
+                        "Q": [exc(q, lambda rs: [row(r) for r in rs]) for q in o["Q"]], "P": P})
         return out
 
-    def model_compare(self, case, expected, answer):
-        # after an aborted process the rows handed to the model's later process steps (computed on the
-        # plain lists) no longer describe the real item table: compare up to and including that step
-        if isinstance(answer, list):
-            for si, st in enumerate(case["steps"]):
-                if st["k"] == "process" and si + 1 < len(expected) and expected[si + 1]["e"] is not None:
-                    expected = expected[:si + 2]
-                    answer = answer[:si + 2]
-                    break
-        return super().model_compare(case, expected, answer)
-
-    def _ids_for(self, case, sim):
+    def _ids_for(self, case):
+        """numbers the non-integer, non-None values in order of first appearance in the case"""
         ids = {}
 
         def add(name, row):
             fs = FIELDS[name]
             for j, v in enumerate(row):
-                key = ckey(norm_cell(fs[j][1] if j < len(fs) else ":string", v))
-                if key not in ids:
-                    ids[key] = len(ids) + 1
+                cell_code(ckey(norm_cell(fs[j][1] if j < len(fs) else ":string", v)), ids, add=True)
+
+        def addv(v):
+            cell_code(ckey(norm_cell(":string", v)), ids, add=True)
         for n in NAMES:
             for r in case["tables"].get(n, {"init": []})["init"]:
                 add(n, r)
-        for st, info in zip(case["steps"], sim):
+        for st in case["steps"]:
             k = st["k"]
             name = st.get("t")
             if k == "append" or k == "setitem":
@@ -1016,13 +1095,19 @@ class C10(Check):
             if k == "update":
                 for c, v in st["data"]:
                     if c in COLIDX[name]:
-                        j = COLIDX[name][c]
-                        key = ckey(norm_cell(FIELDS[name][j][1], v))
-                        if key not in ids:
-                            ids[key] = len(ids) + 1
+                        addv(v)
             if k == "process":
-                for n, r in info["produced"]:
-                    add(n, r)
+                for t in st["script"]:
+                    for key, v in t.items():
+                        if key == "results" or key == "chart":
+                            for d in v:
+                                for vv in d.values():
+                                    addv(vv)
+                        elif key == "run":
+                            for vv in v.values():
+                                addv(vv)
+                        else:
+                            addv(v)
         return ids
 
     # ---- direct oracle
@@ -1049,6 +1134,10 @@ class C10(Check):
             nfail = len(fails)
             # --- exceptions: exactly what the plain list raises; commit/reload/process never raise
             # (since 7d1c791 a compressed relation is rewritten, NotImplementedError is a violation)
+            if info.get("aborted"):
+                if o["e"] != "KeyError":
+                    fail(si, "process with a response lacking 'results' did not raise KeyError", o["e"])
+                return fails[:3]
             if o["e"] != info["err"]:
                 fail(si, "operation raised a different exception than the plain list / documented behaviour",
                      (k, "expected", info["err"], "got", o["e"]))
@@ -1110,6 +1199,23 @@ class C10(Check):
                 if [[ckey(norm_cell(":string", c[0])), ckey(c[1])] for c in o.get("calls", [])] != \
                         [[ckey(c[0]), ckey(c[1])] for c in info["calls"]]:
                     fail(si, "processor was not called once per item in order", (o.get("calls"), info["calls"]))
+            # --- processing, item by item (seen from the callback): memory = previous rows (none for the
+            # cleared relations) + rows produced so far, each once; a table without pending rows = its file
+            if k == "process" and o["e"] is None and o.get("P") is not None:
+                marks, prod, before = info["marks"], info["produced"], info["before"]
+                if len(o["P"]) != len(marks):
+                    fail(si, "callback was not called once per item", (len(o["P"]), len(marks)))
+                for kk, ph in enumerate(o["P"][:len(marks)]):
+                    sofar = prod[:marks[kk]]
+                    for n in NAMES:
+                        want = ([] if n in AFFECTED else list(before[n])) + [norm_row(m, r) for m, r in sofar if m == n]
+                        if keys(ph[n]["it"]) != want:
+                            fail(si, "during processing a table does not show its previous rows plus the rows "
+                                     "produced so far, each once", (kk, n, keys(ph[n]["it"]), want))
+                        elif not ph[n]["tx"] and keys(ph[n]["f"]) != want:
+                            fail(si, "during processing a table without pending rows differs from its file", (kk, n))
+                    if len(fails) > nfail:
+                        break
             if len(fails) > nfail:
                 break      # first diverging step only: everything after it is a consequence
             prev_stored = stored
@@ -1155,6 +1261,13 @@ class C10(Check):
                 inc("process_buffer:" + ("0" if st["b"] == 0 else "lt_produced" if st["b"] < p else
                                          "eq_produced" if st["b"] == p else "gt_produced"))
                 inc("process_gzip:%s" % st["gz"])
+                if info.get("aborted"):
+                    inc("process_response_without_results")
+                inc("process_runs_without_run_id", sum(1 for t in st["script"] if "run" in t and "run-id" not in t["run"]))
+                ids = [json.loads(r[0]).get("int") for r in (info.get("before") or {}).get("item", [])]
+                inc("process_item_ids:" + ("none" if not ids else "repeated" if len(set(ids)) < len(ids) else
+                                           "not_ascending" if [int(x) for x in ids] != sorted(int(x) for x in ids)
+                                           else "ascending"))
             for q in st.get("qs", []):
                 if q["q"] == "slice":
                     s = q["sl"][2]
